@@ -1,8 +1,10 @@
 """C13 binder: group_sound_events.  Encoder only -- the verdict is T_Grouping's.
 
-A case is a graph on the input positions 1..n ({"n": n, "e": [[i, j], ...]}, i < j).  The binder dresses it as
-n real SoundEvents, passes a comparison function that answers by looking the (unordered) pair up in the case's
-relation and logs its arguments, and records the returned sequences and the call log as input positions.
+A case is {"n": n, "id": [identifier of the event at each list position], "e": [[a, b], ...]} with e a relation on event
+identifiers, a <= b ((a, a) = what the comparison function answers for an event the list holds twice).  The binder
+builds one real SoundEvent per identifier, lays them out by "id" (twin positions: the same object / an equal copy),
+passes a comparison function that answers by looking the (unordered) identifier pair up in the relation and logs its
+arguments, and records the returned sequences and the call log as identifiers.
 """
 import uuid
 from soundevent import data
@@ -18,11 +20,14 @@ POOL = 12
 CHUNK = 3000
 RULE = ("every graph (symmetric irreflexive relation) on 0..5 (quick) / 0..6 (thorough) input positions from the TLA+ "
         "enumeration plus random graphs on 7..12 positions (chains in shuffled order, stars, cliques, cycles, sparse and "
-        "dense random); each executed twice (events with distinct geometries / events identical up to their uuid); "
+        "dense random), plus lists that hold an event at several positions (twins: every partition of <= 4 (quick) / <= 5 "
+        "(thorough) positions into twin classes x every relation on the events incl. f(a, a); random ones with 1..3 repeats); "
+        "each executed twice (distinct geometries, twins = the same object / events identical up to their uuid, twins = equal "
+        "copies); "
         "non-trivial = at least one edge and at least two components or a component that needs a chain of >= 2 links")
 TRUSTED_BASE = ["checks/c13.py (build SoundEvents, comparison function = table lookup + argument log, "
-                "map returned events back to input positions by uuid)"]
-ASSUMPTIONS = ["the input list holds pairwise distinct sound events (distinct uuids); the comparison function is symmetric",
+                "map returned events back to identifiers by uuid)"]
+ASSUMPTIONS = ["the comparison function is symmetric and sees events, not positions; a list may hold an event twice (twins)",
                "reachability for 7..12 nodes is computed in TLA+ by the validator (closure iterated at most n times)"]
 
 _REC = data.Recording(path="a.wav", duration=1000.0, channels=1, samplerate=8000)
@@ -31,31 +36,37 @@ _RECS = [_REC, data.Recording(path="b.wav", duration=500.0, channels=2, samplera
          data.Recording(path="c.wav", duration=10.0, channels=1, samplerate=16000)]
 
 
-def _events(n, variant):
-    out = []
-    for i in range(n):
-        if variant == 0:      # all different, spread over three recordings (neighbouring events on different ones)
-            g = data.TimeInterval(coordinates=[float(i), float(i) + 0.5])
-            rec = _RECS[i % 3]
-        else:                 # identical up to the uuid
-            g = data.TimeInterval(coordinates=[1.0, 2.0])
-            rec = _REC
-        out.append(data.SoundEvent(uuid=uuid.UUID(int=7000 + 100 * variant + i), recording=rec, geometry=g))
-    return out
+def _event(a, variant):
+    if variant == 0:      # all different, spread over three recordings (neighbouring events on different ones)
+        g = data.TimeInterval(coordinates=[float(a), float(a) + 0.5])
+        rec = _RECS[a % 3]
+    else:                 # identical up to the uuid
+        g = data.TimeInterval(coordinates=[1.0, 2.0])
+        rec = _REC
+    return data.SoundEvent(uuid=uuid.UUID(int=7000 + 100 * variant + a), recording=rec, geometry=g)
+
+
+def _events(ids, variant):
+    """One event per identifier.  Twin positions hold the very same object (variant 0) or separately built equal
+    objects with the same uuid (variant 1)."""
+    if variant == 0:
+        made = {}
+        return [made.setdefault(a, _event(a, 0)) for a in ids]
+    return [_event(a, 1) for a in ids]
 
 
 def _run(case, variant):
-    n = case["n"]
-    rel = {(a, b) for a, b in case["e"]} | {(b, a) for a, b in case["e"]}
-    events = _events(n, variant)
-    pos = {ev.uuid: i + 1 for i, ev in enumerate(events)}
+    ids = case["id"]
+    rel = {(a, b) for a, b in case["e"]} | {(b, a) for a, b in case["e"]}       # on identifiers, incl. (a, a) for twins
+    events = _events(ids, variant)
+    ident = {ev.uuid: a for ev, a in zip(events, ids)}
     calls = []
 
-    def position(x):
-        return pos.get(getattr(x, "uuid", None), 0)
+    def identifier(x):
+        return ident.get(getattr(x, "uuid", None), 0)
 
     def comparison_fn(se1, se2):
-        a, b = position(se1), position(se2)
+        a, b = identifier(se1), identifier(se2)
         calls.append([a, b])
         return (a, b) in rel
 
@@ -67,7 +78,7 @@ def _run(case, variant):
     for s in result:
         if not isinstance(s, data.Sequence):
             raise TypeError(f"group_sound_events returned a {type(s).__name__}")
-        seqs.append([position(x) for x in s.sound_events])
+        seqs.append([identifier(x) for x in s.sound_events])
     return {"raised": "", "seqs": seqs, "calls": calls}
 
 
@@ -75,13 +86,15 @@ def execute(case):
     return {"runs": [_run(case, 0), _run(case, 1)]}
 
 
-def _graph(n, edges):
-    es = sorted({(min(a, b), max(a, b)) for a, b in edges if a != b})
-    return {"n": n, "e": [list(e) for e in es]}
+def _graph(n, edges, ids=None, loops=()):
+    """edges / loops are on identifiers; without ids every position holds its own event."""
+    es = sorted({(min(a, b), max(a, b)) for a, b in edges if a != b} | {(a, a) for a in loops})
+    return {"n": n, "id": list(ids) if ids else list(range(1, n + 1)), "e": [list(e) for e in es]}
 
 
 def random_cases(rng, tier):
-    """Graphs on 7..12 positions -- larger than TLC enumerates; judged by the same TLA+ clauses."""
+    """Graphs on 7..12 events (a third of them with 1..3 events repeated in the list) -- larger than TLC enumerates;
+    judged by the same TLA+ clauses."""
     count = 300 if tier == "quick" else 3000
     for k in range(count):
         n = rng.randrange(7, 13)
@@ -112,7 +125,14 @@ def random_cases(rng, tier):
             e = [(a, b) for a in range(1, n + 1) for b in range(a + 1, n + 1) if rng.random() < p]
         else:               # random forest
             e = [(nodes[i], nodes[rng.randrange(0, i)]) for i in range(1, n) if rng.random() < 0.75]
-        yield _graph(n, e)
+        if k % 3 == 2:      # the list repeats some events: n identifiers spread over n + extra positions (twins)
+            extra = rng.randrange(1, 4)
+            ids = list(range(1, n + 1)) + [rng.randrange(1, n + 1) for _ in range(extra)]
+            rng.shuffle(ids)
+            rep = {a for a in ids if ids.count(a) >= 2}
+            yield _graph(len(ids), e, ids, [a for a in rep if rng.random() < 0.5])      # f(a, a): both answers
+        else:
+            yield _graph(n, e)
 
 
 def nontrivial(o):
@@ -126,7 +146,8 @@ def nontrivial(o):
 
 
 MANIFEST = {
-    "text": ("Grouping.tla states the result of group_sound_events on graphs over the input positions (partition, input order "
+    "text": ("Grouping.tla states the result of group_sound_events on graphs over the list positions, which may hold one event "
+             "twice (partition, input order "
              "inside blocks, same block iff connected, reachability as an iterated closure cross-checked by TLC against "
              "Warshall, the least-equivalence law and the equivalence laws); MC_Grouping.tla is the implementation as a state "
              "machine (one step per unordered pair building the symmetric matrix and the call log, breadth-first component "
